@@ -199,3 +199,5 @@ add('C17', 'benign', R, '''    self.check_can_insert(buffer_state, samples, 1)
 add('C17', 'benign', R, '''    self._buffer.check_can_sample(buffer_state, self._num_devices)
     buffer_state, samples = jax.pmap''', '''    self._buffer.check_can_sample(buffer_state, 1)
     buffer_state, samples = jax.pmap''', 'shard count only feeds the error message of check_can_sample')
+add('C16', 'benign', 'brax/envs/inverted_pendulum.py', '    reward, done = jp.zeros(2)', '    reward, done = jp.asarray(0.0), jp.asarray(0.0)', 'done = asarray(0.0): the constant 0 by value')
+add('C16', 'break', 'brax/envs/inverted_pendulum.py', '    reward, done = jp.zeros(2)', '    reward, done = jp.zeros(2)\n    done = done + 1.0', 'episode starts done')
